@@ -30,7 +30,9 @@ impl Task {
     pub open spec fn saw(self, reply: Option<u8>) -> Task { Task { seen_all_ready: self.seen_all_ready || reply_all_ready(reply), ..self } }
     // nothing was done to the provisioning state, nothing learnt that enables `finished`
     pub open spec fn same_knowledge(self, o: Task) -> bool {
-        self.ops == o.ops && self.deadline_passed == o.deadline_passed && (self.seen_all_ready ==> o.seen_all_ready || exists|i: int| o.reads.len() <= i < self.reads.len() && reply_all_ready(#[trigger] self.reads[i]))
+        self.ops == o.ops && self.deadline_passed == o.deadline_passed
+        && o.reads.len() <= self.reads.len() && (forall|i: int| 0 <= i < o.reads.len() ==> #[trigger] self.reads[i] == o.reads[i])
+        && (self.seen_all_ready ==> o.seen_all_ready || exists|i: int| o.reads.len() <= i < self.reads.len() && reply_all_ready(#[trigger] self.reads[i]))
     }
 }
 pub open spec fn flags_reply(r: common::result::Result<ProvisionFlags>) -> Option<u8> {
